@@ -678,7 +678,8 @@ class C20:
             "masked; non-trivial when >= 2 options are set; distinct by (option subset, CLI order class, version, "
             "out form)")
     required = ("three_routes_compared", "config_route_executed", "swallowed_path_cases", "fields_checked",
-                "out_file_cases", "out_dir_cases", "config_inline_single_value")
+                "out_file_cases", "out_dir_cases", "config_inline_single_value", "config_location_cwd",
+                "config_location_home")
     assumptions = ("INI-unsafe values (%, leading/trailing blanks, newlines, the words true/false) are not generated",
                    "documented configuration keys are the singular long option names of the manual's example")
 
@@ -718,7 +719,7 @@ class C20:
                               "comment": rng.choice(["-c", "--comment"]), "out": rng.choice(["-o", "--out"])},
                 "ininames": {"announce": rng.choice(["announce", "announce", "tracker"])},
                 "ini_private_false": rng.random() < 0.3, "ini_inline": rng.random() < 0.5,
-                "ini_first_inline": rng.random() < 0.25, "cmdword": rng.choice(["create", "new"]),
+                "ini_first_inline": rng.random() < 0.25, "ini_location": rng.choice(["path", "path", "cwd", "home"]), "cmdword": rng.choice(["create", "new"]),
                 "lib_path_kw": rng.choice(["path", "content"]), "lib_pl_str": rng.random() < 0.5}
 
     @staticmethod
@@ -760,10 +761,21 @@ class C20:
                 argv, orderclass = _c20_argv(case, root, outarg)
                 oc = drive.cli_execute(argv)
             elif route == "config":
-                ini = os.path.join(sub, "cfg.ini")
+                loc = case.get("ini_location", "path")
+                if loc == "cwd":
+                    ini = os.path.join(sub, "torrentfile.ini")           # documented default #1: ./torrentfile.ini
+                elif loc == "home":
+                    ini = os.path.join(os.environ["HOME"], ".torrentfile", "torrentfile.ini")   # default #2
+                    os.makedirs(os.path.dirname(ini), exist_ok=True)
+                else:
+                    ini = os.path.join(sub, "cfg.ini")
                 with open(ini, "w", encoding="utf-8") as fd:
                     fd.write(_c20_ini(case, outarg))
-                oc = drive.cli_execute(["create", "--config", "--config-path", ini, "--prog", "0", root])
+                cfg = ["--config", "--config-path", ini] if loc == "path" else ["--config"]
+                oc = drive.cli_execute(["create"] + cfg + ["--prog", "0", root])
+                counters["config_location_" + loc] = 1
+                if loc != "path":
+                    os.remove(ini)        # not part of the produced output
                 counters["config_route_executed"] = 1
                 if case.get("ini_inline") and any(len(o.get(k) or []) == 1 for k in ("announce", "url_list", "httpseeds")):
                     counters["config_inline_single_value"] = 1
